@@ -36,13 +36,13 @@ type Req struct {
 type Res struct {
 	ID         int
 	Accepted   bool
-	ParseErr   string `json:",omitempty"`
-	Panic      string `json:",omitempty"`
-	Tree       string `json:",omitempty"`
-	TreeSHA    string `json:",omitempty"`
-	CodeSHA    string `json:",omitempty"`
-	Code       string `json:",omitempty"`
-	CompileErr string `json:",omitempty"`
+	ParseErr   string           `json:",omitempty"`
+	Panic      string           `json:",omitempty"`
+	Tree       string           `json:",omitempty"`
+	TreeSHA    string           `json:",omitempty"`
+	CodeSHA    string           `json:",omitempty"`
+	Code       string           `json:",omitempty"`
+	CompileErr string           `json:",omitempty"`
 	Conc       []map[string]int `json:",omitempty"` // per sub-request: distinct results -> count
 }
 
